@@ -1,0 +1,38 @@
+//go:build verif
+
+package snapshot
+
+// Machine-checked contracts for the gowp verifier (/verif). Comment-only; compiled only under the
+// build tag "verif"; declares nothing.
+//
+// $lastsave: the last-save time the server reports (what setLatestSnapshotTimeFunc stored last).
+//@ ghost $lastsave Int
+
+// The callbacks the server installs (sugardb.NewSugarDB): assumed contracts for every value stored in these fields.
+//@ fieldspec snapshot.Engine.setLatestSnapshotTimeFunc props C03,C10
+//@   ensures $lastsave == msec
+//@   modifies $lastsave
+//@ fieldspec snapshot.Engine.getLatestSnapshotTimeFunc props C03,C10
+//@   ensures result == $lastsave
+//@   modifies nothing
+//@ fieldspec snapshot.Engine.startSnapshotFunc props C10
+//@   modifies nothing
+//@ fieldspec snapshot.Engine.finishSnapshotFunc props C10
+//@   modifies nothing
+//@ fieldspec snapshot.Engine.getStateFunc props C03
+//@   ensures forall d int :: has(result, d) ==> result[d] != nil
+//@   modifies nothing
+
+//@ func (*Engine).TakeSnapshot props C10,C03
+//@   requires engine.clock != nil
+//@   ensures {C10} failed-untouched: result != nil ==> $lastsave == old($lastsave)
+//@   ensures {C03} lastsave: result == nil ==> $lastsave == unixmilli($now)
+//@   ensures {C03} counted: result == nil ==> atomic(engine.changeCount) == 0
+//@   assert @Marshal#2 {C10} manifest-names-dir: manifest.LatestSnapshotMilliseconds == msec && msec == unixmilli($now)
+//@   modifies *
+
+// The automatic-snapshot goroutine: an iteration that does not take a snapshot found fewer changes than the threshold.
+//@ func NewSnapshotEngine$7 props C03
+//@   requires engine != nil && engine.clock != nil
+//@   loop 0
+//@     iteration {C03} due: calls(TakeSnapshot) == atheader(calls(TakeSnapshot)) ==> atomic(engine.changeCount) < engine.snapshotThreshold
